@@ -33,16 +33,20 @@ class ThreadGen:
             free = [v for v in range(base, base + nvars_per) if v not in held]
             if held and not getattr(self, 'nested_ok', False):
                 free = []   # one guard per thread at a time (nested guards only in a few marked scenarios)
+            elif held and r.random() < 0.4:
+                free = list(held)[:1]   # marked scenario: create a guard into a variable that still holds one (move assignment over a live guard)
             if c < 0.3 and free:
                 v = r.choice(free)
                 ops.append(f'guard {v}')
-                held.append(v)
+                if v not in held:
+                    held.append(v)
                 if r.random() < 0.5:
                     ops.append(f'gepoch {v}')
             elif c < 0.6 and free:
                 v = r.choice(free)
                 ops.append(f'gpe {v}')
-                held.append(v)
+                if v not in held:
+                    held.append(v)
                 if r.random() < 0.7:
                     ops.append(f'relist {v}')
             elif c < 0.85 and held:
